@@ -70,3 +70,37 @@ def replay(path):
             core.log(log[-3000:])
             return rc != 0
     raise core.InfraError(f"artifact {path} names an unknown loader type")
+
+
+def history_campaign(pid, seed, runs, jobs=8):
+    """Coverage-guided fuzzing of the C12 history interpreter: `jobs` independent libFuzzer processes (different
+    -seed values derived from VERIF_SEED), each from an empty corpus. Returns the list of per-job results."""
+    flags = FUZZ_FLAGS + ["-DVF_FUZZ_TARGET", "-DVF_NO_LINEAR"]
+    obj = core.compile_obj("fuzz_history", os.path.join(core.HARNESS, "prop_C12.cpp"), flags, compiler="clang++")
+    common = core.compile_obj("common", os.path.join(core.HARNESS, "common.cpp"), core.PLAIN, compiler="clang++")
+    b = core.link("fuzz_history", [obj, common], ["-fsanitize=fuzzer,address,undefined"], libs=["-lrapidcheck"], compiler="clang++")
+
+    def one(k):
+        corpus = os.path.join(core.WORK, pid, f"corpus-history-{k}")
+        os.makedirs(corpus, exist_ok=True)
+        for f in glob.glob(os.path.join(corpus, "*")):
+            os.remove(f)
+        os.makedirs(os.path.join(core.REPLAYS, pid), exist_ok=True)
+        prefix = os.path.join(core.REPLAYS, pid, f"fuzz-history-{k}-")
+        cmd = [b, f"-runs={runs}", f"-seed={(seed if seed else 1) * 100 + k}", "-max_len=640", "-timeout=30", "-rss_limit_mb=3000", f"-artifact_prefix={prefix}", "-print_final_stats=1", corpus]
+        rc, log, wall = core.run(cmd, env={"ASAN_OPTIONS": "detect_leaks=1", "UBSAN_OPTIONS": "print_stacktrace=1:halt_on_error=1"}, timeout=6 * 3600)
+        m = re.search(r"stat::number_of_executed_units:\s*(\d+)", log)
+        cov = re.findall(r"cov: (\d+)", log)
+        arts = [a for a in re.findall(r"Test unit written to (\S+)", log) if os.path.basename(a)[len(f"fuzz-history-{k}-"):].startswith(("crash-", "leak-"))]
+        return {"job": k, "rc": rc, "execs": int(m.group(1)) if m else 0, "coverage_edges": int(cov[-1]) if cov else 0, "artifacts": arts, "log_tail": log[-3000:], "wall": wall, "bin": b}
+    return core.parallel(one, list(range(jobs)))
+
+
+def history_replay(path):
+    flags = FUZZ_FLAGS + ["-DVF_FUZZ_TARGET", "-DVF_NO_LINEAR"]
+    obj = core.compile_obj("fuzz_history", os.path.join(core.HARNESS, "prop_C12.cpp"), flags, compiler="clang++")
+    common = core.compile_obj("common", os.path.join(core.HARNESS, "common.cpp"), core.PLAIN, compiler="clang++")
+    b = core.link("fuzz_history", [obj, common], ["-fsanitize=fuzzer,address,undefined"], libs=["-lrapidcheck"], compiler="clang++")
+    rc, log, _ = core.run([b, path], timeout=600)
+    core.log(log[-3000:])
+    return rc != 0
